@@ -36,7 +36,7 @@ import os
 from typing import Optional
 
 REF = os.path.join(os.path.dirname(os.path.dirname(os.path.abspath(__file__))), "reference", "local_names.json")
-PURE_CALLS = {"len", "min", "max", "int", "bool", "abs", "bytes", "tuple", "list", "isinstance"}
+PURE_CALLS = {"len", "min", "max", "int", "bool", "abs", "bytes", "tuple", "frozenset", "isinstance"}  # immutable results only: a mutable result (list, set) is one shared object when bound to a local but a fresh one per use when inlined
 
 
 def _params(fn) -> set:
@@ -264,6 +264,18 @@ def partial_rename(fn, ref_sigs: list, ref_locals: list) -> dict:
             for x, y in zip(na, nb):
                 fwd.setdefault(x, set()).add(y)
                 bwd.setdefault(y, set()).add(x)
+    # statements whose header occurs exactly once on each side pair up wherever they stand (reordered statements)
+    from collections import Counter
+
+    ca, cb = Counter(a), Counter(b)
+    ib = {d: i for i, d in enumerate(b)}
+    for i, d in enumerate(a):
+        if ca[d] == 1 and cb.get(d) == 1:
+            na, nb = sigs[i][1], ref_sigs[ib[d]][1]
+            if len(na) == len(nb):
+                for x, y in zip(na, nb):
+                    fwd.setdefault(x, set()).add(y)
+                    bwd.setdefault(y, set()).add(x)
     present = set()
     nested_binds = set()
     for n in ast.walk(fn):
@@ -387,6 +399,65 @@ def _safe_to_inline(fn, assign: ast.Assign, name: str) -> bool:
     return all(u.lineno > first or (u.lineno == first and u.col_offset > assign.col_offset) for u in uses)
 
 
+def _numeric_evidence(e) -> bool:
+    """the expression is an arithmetic sum/difference with an int literal in its top-level chain (so `+ 0` is identity)"""
+    while isinstance(e, ast.BinOp) and isinstance(e.op, (ast.Add, ast.Sub)):
+        if any(isinstance(x, ast.Constant) and type(x.value) is int for x in (e.left, e.right)):
+            return True
+        e = e.left
+    return False
+
+
+def fold_conditional_accumulate(fn, ref_sigs: list) -> int:
+    """`x = E0` directly followed by `if C: x += E1` (no else)  ->  `x = E0 + (E1 if C else 0)`.
+
+    Same evaluation order (E0, C, then E1 only when C holds) and, for numbers, the same value; applied only when E0 is
+    visibly numeric and the fold makes more statements align with the reference (which then has the folded form)."""
+    n = 0
+    for holder in [fn] + [x for x in _own_nodes(fn)]:
+        for field in ("body", "orelse", "finalbody"):
+            lst = getattr(holder, field, None)
+            if not (isinstance(lst, list) and lst and isinstance(lst[0], ast.stmt)):
+                continue
+            i = 0
+            while i + 1 < len(lst):
+                a, b = lst[i], lst[i + 1]
+                tgt = a.targets[0] if isinstance(a, ast.Assign) and len(a.targets) == 1 else (a.target if isinstance(a, ast.AnnAssign) and a.value is not None else None)
+                if (
+                    isinstance(tgt, ast.Name)
+                    and isinstance(b, ast.If)
+                    and not b.orelse
+                    and len(b.body) == 1
+                    and isinstance(b.body[0], ast.AugAssign)
+                    and isinstance(b.body[0].op, ast.Add)
+                    and isinstance(b.body[0].target, ast.Name)
+                    and b.body[0].target.id == tgt.id
+                    and _numeric_evidence(a.value)
+                    and not any(isinstance(x, ast.Name) and x.id == tgt.id for x in ast.walk(b.test))
+                    and not any(isinstance(x, ast.Name) and x.id == tgt.id for x in ast.walk(b.body[0].value))
+                ):
+                    before = alignment_score(fn, ref_sigs)
+                    new = ast.Assign(
+                        targets=[ast.Name(id=tgt.id, ctx=ast.Store())],
+                        value=ast.BinOp(left=a.value, op=ast.Add(), right=ast.IfExp(test=b.test, body=b.body[0].value, orelse=ast.Constant(value=0))),
+                    )
+                    ast.copy_location(new, a)
+                    ast.copy_location(new.targets[0], tgt)
+                    ast.copy_location(new.value, a.value)
+                    ast.copy_location(new.value.right, b)
+                    ast.copy_location(new.value.right.orelse, b)
+                    new.end_lineno = getattr(b, "end_lineno", b.lineno)
+                    old = (lst[i], lst[i + 1])
+                    lst[i : i + 2] = [new]
+                    ast.fix_missing_locations(new)
+                    if alignment_score(fn, ref_sigs) > before:
+                        n += 1
+                        continue
+                    lst[i : i + 1] = list(old)
+                i += 1
+    return n
+
+
 class _Subst(ast.NodeTransformer):
     def __init__(self, name, expr):
         self.name, self.expr = name, expr
@@ -426,9 +497,11 @@ def _remove_stmt(fn, stmt):
 def alignment_score(fn, ref_sigs: list) -> int:
     import difflib
 
-    a = [d for d, _ in stmt_signatures(fn)]
-    b = [d for d, _ in ref_sigs]
-    return sum(blk.size for blk in difflib.SequenceMatcher(a=a, b=b, autojunk=False).get_matching_blocks())
+    from collections import Counter
+
+    a = Counter(d for d, _ in stmt_signatures(fn))
+    b = Counter(d for d, _ in ref_sigs)
+    return sum((a & b).values())  # order-insensitive: reordered independent statements still count as aligned
 
 
 def inline_new_locals(fn, known: list, ref_sigs: Optional[list] = None) -> list:
@@ -594,6 +667,10 @@ def normalise_module(modname: str, tree: ast.Module, source: str = "") -> dict:
                         entry["inlined"] = inl
                     elif inl:
                         fn.body[:] = saved
+            if "inlined" not in entry and r.get("stmts"):
+                k = fold_conditional_accumulate(fn, r["stmts"])
+                if k:
+                    entry["folded_conditional_accumulate"] = k
             if "inlined" not in entry and r.get("stmts"):
                 # a hoist next to a real edit: keep the inlinings that bring statements back to their reference form
                 inl = inline_new_locals(fn, r["locals"], r["stmts"])
